@@ -6,7 +6,7 @@ META = {
     "level": "proof",
     "technique": "Coq proofs by induction on fuel/decomposition lists/histories over a Gallina transcription of estimate.py's counting recursion and WireResourceManager, with the operator classes as oracles; vm_compute correspondence against qp.estimator.estimate and the real WireResourceManager",
     "design_ref": "DESIGN.md §3 C47",
-    "text": "Kernel-checked theorems (Props/C47.v), for ALL decomposition oracles, gate sets, fuel bounds, workflows and allocate/free histories: every successful estimate's count of a gate x equals the pure weight sum_{(op,k)} k*W(op,x), hence estimate(w1++w2) = estimate(w1)+estimate(w2) on gate counts, n copies (and scalar n) multiply counts by n, estimates compose sequentially; the wire manager's zeroed/any_state stay >= 0 over every history of non-negative requests (an error arises exactly under the transcribed raise conditions), total >= algo, and zeroed+any_state at the end = max(initial work wires, peak number of simultaneously outstanding allocated wires) so every allocation is accounted for; the estimator's effect on the manager is exactly such a history (its pure request trace), which is non-negative for non-negative oracles/scalars. Tie: the model is evaluated inside Coq on the same random workflows (qfunc / Resources / single-operator entry points, ~35 real operator classes incl. nested Adjoint/Controlled/Pow and operators that allocate auxiliary wires with and without imbalance, random gate sets, budgets, tight flag) and on random allocate/free histories, and compared with the implementation's gate_types dictionary, zeroed/any_state/algo wires and error behaviour; additivity, repetition and the wire bounds are also checked directly on the implementation's outputs.",
+    "text": "Kernel-checked theorems (Props/C47.v), for ALL decomposition oracles, gate sets, fuel bounds, workflows and allocate/free histories: every successful estimate's count of a gate x equals the pure weight sum_{(op,k)} k*W(op,x), hence estimate(w1++w2) = estimate(w1)+estimate(w2) on gate counts, n copies (and scalar n) multiply counts by n, estimates compose sequentially; the wire manager's zeroed/any_state stay >= 0 over every history of non-negative requests (an error arises exactly under the transcribed raise conditions), total >= algo, and zeroed+any_state at the end = max(initial work wires, peak number of simultaneously outstanding allocated wires) so every allocation is accounted for; the estimator's effect on the manager is exactly such a history (its pure request trace), which is non-negative for non-negative oracles/scalars. Tie: the model is evaluated inside Coq on the same random workflows (qfunc / Resources / single-operator entry points, ~37 real operator classes incl. nested Adjoint/Controlled/Pow and operators that allocate auxiliary wires with and without imbalance, random gate sets, budgets, tight flag) and on random allocate/free histories, and compared with the implementation's gate_types dictionary, zeroed/any_state/algo wires and error behaviour; additivity, repetition and the wire bounds are also checked directly on the implementation's outputs.",
     "note": "Oracles (recorded by calling the class methods directly, not verified): each operator class's resource_decomp / overridden adjoint_/controlled_/pow_resource_decomp results, tracking names, op.wires and op.num_wires of queued operators. Modelled, not verified: default ResourceConfig only (no custom decompositions; the None->configured-precision parameter substitution is re-implemented in the driver and thereby cross-checked, not modelled in Coq); Prod/ChangeOpBasis and templates that take operators as arguments are outside the generated workflows; PennyLane (non-estimator) operators mapped through _map_to_resource_op and QNode workflows are not exercised; the Python recursion is unbounded while the model uses fuel 200 (theorems hold for every fuel; running out of fuel is a distinct error the tie never accepts). Errors are compared as raised/not raised, not by exception type. Additivity is about gate counts: wire totals are not additive and tight-budget errors depend on the manager state, so the additivity theorem assumes the three estimates succeed (it allows three different managers).",
     "assumptions": ["non-negative GateCount counts / Allocate sizes / scalars for the wire-bookkeeping theorems (checked on the recorded oracle table each run)",
                     "default ResourceConfig (config=None)"],
@@ -304,7 +304,7 @@ def g_case(c, o, names, unknown):
     else:
         exp = (f"(Some ({glist(res['gt'], lambda e: f'({g_rop(e[0])}, {gz(e[1])})')}, {gz(res['z'])}, {gz(res['a'])}, "
                f"{gz(res['algo'])}))")
-    return f"({inp}, {exp})"
+    return f"({inp}, ({exp} : obs))"
 
 
 def g_hist(h, o):
@@ -354,8 +354,8 @@ def run(ctx):
     ctx.coq_props()
     quick = ctx.tier == "quick"
     rng = ctx.rng
-    cases, groups = gen_cases(rng, 420 if quick else 3500)
-    hists = gen_hists(rng, 1200 if quick else 12000)
+    cases, groups = gen_cases(rng, 420 if quick else 6000)
+    hists = gen_hists(rng, 1200 if quick else 20000)
     payload_cases = [dict(c, gs=None if c["gs"] is None else [gs_str(g) for g in c["gs"]]) for c in cases]
     out = ctx.run_impl("c47_impl.py", {"cases": payload_cases, "hists": hists})
     obs, hobs, table = out["cases"], out["hists"], out["table"]
